@@ -20,6 +20,9 @@ THEOREMS = [
     "Mpc.C15_clmul_asm_algorithm",
     # the consistency check (Model/Kos.lean on top of Model/Iknp.lean)
     "Mpc.C15_kos_complete",
+    # honest calls on caller-provided result buffers, histories (Model/KosBuf.lean)
+    "Mpc.C15_kos_complete_any_buffer",
+    "Mpc.C15_kos_history_never_aborts",
     "Mpc.C15_kos_accept_iff",
     "Mpc.C15_kos_unselected_harmless",
     "Mpc.C15_kos_single_row_sound",
@@ -33,6 +36,16 @@ THEOREMS = [
     "Mpc.C15_kos_never_silent_two_positions",
     "Mpc.C15_kos_dependent_rows_forgery_witness",
     "Mpc.C15_kos_probe_recovers_chi",
+]
+
+# dimension counting: a dependent set of rows exists for EVERY coefficient vector (Props/C15Count.lean,
+# Proofs/KosCount.lean; pigeonhole from Mathlib.Data.Fintype.Pigeonhole)
+THEOREMS_COUNT = [
+    "Mpc.C15_dependent_rows_exist",
+    "Mpc.C15_dependent_rows_exist_in_window",
+    "Mpc.C15_dependent_rows_bound_sharp",
+    "Mpc.C15_kos_forgery_exists_for_every_challenge",
+    "Mpc.C15_kos_full_statement_false",
 ]
 
 
@@ -154,6 +167,7 @@ def count_ops(ctx, ops):
 
 def run(ctx):
     ctx.prove("MpcVerif.Props.C15", THEOREMS)
+    ctx.prove("MpcVerif.Props.C15Count", THEOREMS_COUNT)
     run_t1(ctx, ["C15"])          # ot.clmul64 / mul128Generic = Model/Clmul.lean
     if ctx.tier == "thorough":
         ctx.leanchecker("MpcVerif.Props.C15")
@@ -178,8 +192,15 @@ def run(ctx):
             ctx.correspond("malicious-mode sessions: response bytes, outputs, and the sender's outcome for every "
                            "enumerated alteration = Lean model / acceptance condition (seed %d)" % s, ops, out)
             count_ops(ctx, ops)
+        # histories of honest calls on one pair with named result buffers (hist.go)
+        for s in seeds:
+            ops, out, meta = ctx.run_hx("hist", 24 if quick else 120, seed=s, timeout=2400)
+            ctx.absorb_meta(meta)
+            ctx.correspond("histories of honest malicious-mode calls with named result buffers: response labels and "
+                           "outputs of every call = Lean model Kos.runKCall (seed %d)" % s, ops, out)
+            count_ops(ctx, ops)
         c = ctx.coverage.get("counters", {})
-        ctx.evaluations += c.get("faults_total", 0) + c.get("faults_live", 0)
+        ctx.evaluations += c.get("faults_total", 0) + c.get("faults_live", 0) + c.get("hist_calls", 0)
         need = ["honest_sessions_ok", "n_single_chunk", "n_multi_chunk", "n_gt_1024_rows", "n_with_padding_rows",
                 "faults_selected_column_A", "faults_unselected_or_padding_ok", "faults_live",
                 "outcome_padding_ok", "outcome_double_A", "outcome_multi_A", "outcome_bytemask_A",
@@ -192,7 +213,12 @@ def run(ctx):
                  "outcome_sample-payload_A", "outcome_sample-check_A", "outcome_lastrow-check_A",
                  "outcome_lastrow-payload_A", "outcome_highcol_A"] if quick else
                 ["outcome_all-payload_A", "outcome_all-payload_ok", "outcome_all-check_A", "outcome_all-check_ok"])
+        need += ["hist_buf_" + k for k in ("fresh", "kept", "kept_subslice", "ones", "bytefill", "random")] + \
+                ["hist_buf_nonzero_before_call", "hist_n_multi_chunk", "hist_n_gt_1024", "hist_n_single_chunk"]
         missing = [k for k in need if not c.get(k)]
+        ctx.oblige("every honest history of malicious-mode calls on one pair completed, whatever the result slices held "
+                   "(no abort in any call)", c.get("hist_cases", 0) > 0 and c.get("hist_cases_ok", 0) == c.get("hist_cases", -1),
+                   "histories=%s completed=%s" % (c.get("hist_cases"), c.get("hist_cases_ok")))
         ctx.oblige("fault enumeration reached every class (row 0 / all positions of both batches, both halves of the "
                    "Delta-selected/unselected split, padding rows, double/multi flips, byte masks, every response label, "
                    "extreme Deltas, 1/2-4/5 chunks, > 1024 rows, live runs)", not missing, "not reached: %s" % missing)
@@ -230,6 +256,11 @@ def run(ctx):
                 if [f for f in ctx.fails if not ctx.is_known(f)]:
                     break
     ctx.coverage["rule"] = (
+        "hist: 24 (120) histories of 2-4 honest malicious-mode calls on ONE pair, n in 1..1100 around 8/64/128/512/1024, "
+        "every call with a named result slice: fresh, or a window [off, off+n) of the receiver's long-lived array kept as "
+        "the earlier calls left it (incl. the very slice of the previous call), or overwritten first with ones / another "
+        "byte / an AES-CTR stream; the buffer specs are in the op line and the model runs the same contents; oracle: no "
+        "abort, correlation at every position, nothing outside the slice changes. "
         "sess: fault sessions with n in {1,8,9} and n = 9 with the all-ones Delta (thorough: n = 1..9 with EVERY (column,row) position of the payload "
         "chunk incl. padding rows and of the 256-row check batch, + 4 sessions with extreme Deltas): no-fault replay, "
         "row 0 and last row of both batches x 128 columns, columns 120..127 at sampled rows, one flip per column at a random row of each batch, seeded sample of "
